@@ -62,6 +62,7 @@ type ncCase struct {
 	ChunkMode  int      `json:"chunk_mode"`
 	AfterDelim string   `json:"after_delim"`
 	TimeoutMS  int      `json:"timeout_ms"`
+	Coalesce   int      `json:"coalesce,omitempty"` // see ncDevState
 }
 
 var midRe = regexp.MustCompile(`message-id="(\d+)"`)
@@ -197,6 +198,9 @@ func genNC(prop string, r *sim.Rng) *ncCase {
 		c.SessionID = "77"
 	}
 	c.Echo = r.Chance(1, 3)
+	if prop == "C08" || prop == "C03" {
+		c.Coalesce = []int{0, 0, 1, 1, 2}[r.Intn(5)]
+	}
 	c.Force = r.Chance(1, 3)
 	c.XH = r.Chance(1, 3)
 	c.ChunkMode = []int{0, 0, 2, 2, 4, 4, 4, 1, 3}[r.Intn(9)]
@@ -297,13 +301,40 @@ func runNC(prop string, seed uint64, n int, tier string) {
 // that reads may cut inside a message but never merge two messages.
 type ncDev struct {
 	*sim.NCServer
+	st *ncDevState
+}
+
+// ncDevState: how server messages may share a transport read.  coalesce 0: never (a boundary
+// marker follows every message); 1: the echo of a request and the reply to it may arrive in one
+// read; 2: no boundaries at all, and late replies of timed-out requests are sent immediately
+// before the next reply (two complete replies in one read).
+type ncDevState struct {
+	coalesce    int
+	pendingLate [][]byte
+	lateJoined  map[int]bool // index of the request whose reply was preceded by a late reply
 }
 
 func (d ncDev) Start() [][]byte { return sim.Atoms(d.NCServer.Hello) }
 func (d ncDev) Feed(b []byte) [][]byte {
 	var out [][]byte
-	for _, m := range d.NCServer.Feed(b) {
+	co := 0
+	if d.st != nil {
+		co = d.st.coalesce
+	}
+	msgs := d.NCServer.Feed(b)
+	for i, m := range msgs {
+		isEcho := d.NCServer.Echo && i == 0
+		if !isEcho && d.st != nil && len(d.st.pendingLate) > 0 {
+			for _, l := range d.st.pendingLate {
+				out = append(out, sim.Atoms(l)...)
+			}
+			d.st.pendingLate = nil
+			d.st.lateJoined[len(d.NCServer.Requests)-1] = true
+		}
 		out = append(out, sim.Atoms(m)...)
+		if co == 2 || (co == 1 && isEcho && len(msgs) > 1) {
+			continue
+		}
 		out = append(out, nil) // message boundary marker (see msgBoundaryTransport)
 	}
 	return out
@@ -446,7 +477,8 @@ func runNCCase(id string, c *ncCase) {
 			return out
 		}
 	}
-	tr := sim.NewTransport(ncDev{srv})
+	devSt := &ncDevState{coalesce: c.Coalesce, lateJoined: map[int]bool{}}
+	tr := sim.NewTransport(ncDev{srv, devSt})
 	tr.Segs = c.Segs
 	tr.DefaultSeg = c.DefSeg
 	tr.MsgBoundaries = true
@@ -553,6 +585,7 @@ func runNCCase(id string, c *ncCase) {
 	}
 	var outs []string
 	var late []int
+	firstOracle, firstSig := "", ""
 	for i, o := range c.Ops {
 		tr.Mark('C')
 		r, err := callNC(d, o)
@@ -563,6 +596,10 @@ func runNCCase(id string, c *ncCase) {
 			if o.Beh == 0 {
 				cs.Oracle = fmt.Sprintf("request %d (%s): reply was sent in full but the call timed out", i, o.Kind)
 				cs.Sig = "C08:reply-lost"
+				if devSt.lateJoined[len(srv.Requests)-1] {
+					cs.Oracle += " (the late reply to an earlier, timed-out request arrived in the same read, in front of it)"
+					cs.Sig = "C08:reply-lost:two-replies-in-one-read"
+				}
 				// diagnose: is the message-id attribute contiguous in the framed reply?
 				if ri := len(srv.Requests) - 1; ri >= 0 {
 					fr := srv.FrameReply(ri, srv.Reply(ri, srv.Requests[ri].ID))
@@ -618,11 +655,24 @@ func runNCCase(id string, c *ncCase) {
 				cs.Sig = "C02:e2e-classification"
 			}
 		}
+		if cs.Oracle != "" && firstOracle == "" {
+			// the FIRST failure of a session is the one reported (later ones are usually its consequences)
+			if len(srv.Requests) > 0 && devSt.lateJoined[len(srv.Requests)-1] {
+				// whatever went wrong with this request, a late reply sat in front of its reply in one read
+				cs.Oracle += " (the late reply to an earlier, timed-out request arrived in the same read, in front of this reply)"
+				cs.Sig = "C08:reply-lost:two-replies-in-one-read"
+			}
+			firstOracle, firstSig = cs.Oracle, cs.Sig
+		}
 		// late replies of earlier timed-out requests arrive now
 		for _, li := range late {
 			if fr, ok := srv.Late[li]; ok {
-				atoms := append(sim.Atoms(fr), nil)
-				tr.Inject(atoms)
+				if c.Coalesce == 2 {
+					devSt.pendingLate = append(devSt.pendingLate, fr)
+				} else {
+					atoms := append(sim.Atoms(fr), nil)
+					tr.Inject(atoms)
+				}
 				delete(srv.Late, li)
 			}
 		}
@@ -632,6 +682,9 @@ func runNCCase(id string, c *ncCase) {
 			// event order in the log is the order the implementation saw
 			time.Sleep(3 * time.Millisecond)
 		}
+	}
+	if firstOracle != "" {
+		cs.Oracle, cs.Sig = firstOracle, firstSig
 	}
 	time.Sleep(2 * time.Millisecond)
 	cs.Line = mkLine()
